@@ -96,6 +96,21 @@ fn ambiguity_necessary_condition(nonstrict: &[Tok]) -> bool {
     false
 }
 
+/// Known-finding classifier (KF-C03-4): a `<select>` opened inside a `<template>` is closed by
+/// `</template>` in the tree builder, but the ambiguity guard only leaves its in-select state on
+/// `</select>` (or input/keygen/textarea); a `<frameset>` that follows is then not recorded, and
+/// once the guard has left the select state by other means a text-mode-switching tag that the
+/// "in frameset" insertion mode ignores switches lol-html's tokenizer.
+fn select_closed_by_template_end_then_frameset(lower: &str) -> bool {
+    let Some(i) = lower.find("<template") else { return false };
+    let Some(j) = lower[i..].find("<select").map(|x| x + i) else { return false };
+    let Some(k) = lower[j..].find("</template").map(|x| x + j) else { return false };
+    if lower[j..k].contains("</select") {
+        return false;
+    }
+    lower[k..].contains("<frameset")
+}
+
 /// Known-finding classifier: the document ends inside a tag that never completes (so no start
 /// tag token exists), and completing that tag would make it the text-mode-switching start tag
 /// that justifies the refusal. The tag scanner reports the tag name to the tree-builder simulator
@@ -281,6 +296,9 @@ impl Property for C03 {
             if lower.contains("<svg/>") || lower.contains("<math/>") {
                 return Ok(Err(Fail::known("C03.tokens", detail, "self_closing_foreign_root_enters_foreign_content")));
             }
+            if select_closed_by_template_end_then_frameset(&lower) {
+                return Ok(Err(Fail::known("C03.tokens", detail, "select_closed_by_template_end_then_frameset")));
+            }
             return Ok(Err(Fail::new("C03.tokens", detail)));
         }
         Ok(Ok(()))
@@ -357,6 +375,9 @@ impl C03 {
             }
             if lower.contains("<svg/>") || lower.contains("<math/>") {
                 return Ok(Err(Fail::known("C03.tokens", detail, "self_closing_foreign_root_enters_foreign_content")));
+            }
+            if select_closed_by_template_end_then_frameset(&lower) {
+                return Ok(Err(Fail::known("C03.tokens", detail, "select_closed_by_template_end_then_frameset")));
             }
             return Ok(Err(Fail::new("C03.tokens", detail)));
         }
